@@ -1753,23 +1753,26 @@ def run(ck):
     tp_query_stream(ck)
 
 
-TP_QUERIES = {  # method -> (TrustProvOperation, number of arguments, returns values[0] instead of the list)
-    "tp_oem_gen_master_share": (0, 8, False), "tp_oem_get_cust_cert_dice_puk": (2, 4, True), "tp_hsm_gen_key": (3, 6, False),
-    "tp_hsm_store_key": (4, 6, False), "tp_hsm_enc_sign": (6, 6, True), "tp_oem_get_cust_dice_response": (7, 4, True)}
+TP_QUERIES = {  # method -> (command tag, first parameter word = operation, number of arguments, returns values[0] instead of the list)
+    "tp_oem_gen_master_share": (0x16, 0, 8, False), "tp_oem_get_cust_cert_dice_puk": (0x16, 2, 4, True), "tp_hsm_gen_key": (0x16, 3, 6, False),
+    "tp_hsm_store_key": (0x16, 4, 6, False), "tp_hsm_enc_sign": (0x16, 6, 6, True), "tp_oem_get_cust_dice_response": (0x16, 7, 4, True),
+    "wpc_get_id": (0x16, 0x5000000, 2, True), "nxp_get_id": (0x16, 0x5000001, 2, True), "wpc_sign_csr": (0x16, 0x5000003, 4, True),
+    "dsc_hsm_create_session": (0x16, 0x6000000, 4, True), "dsc_hsm_enc_blk": (0x16, 0x6000001, 5, True), "dsc_hsm_enc_sign": (0x16, 0x6000002, 4, True),
+    "el2go_close_device": (0x20, 2, 2, True)}
 
 
 def tp_query_stream(ck):
     """McuBoot.tp_* methods that return words of a TrustProvisioningResponse, on a one-response interface (no Lean model: oracle only)."""
-    from spsdk.exceptions import SPSDKError
     from spsdk.mboot.commands import parse_cmd_response
     from spsdk.mboot.exceptions import McuBootCommandError
     from spsdk.mboot.mcuboot import McuBoot
     rng = ck.rng
     s = ck.stream("tp_queries", "tp_oem_gen_master_share / tp_oem_get_cust_cert_dice_puk / tp_hsm_gen_key / tp_hsm_store_key / tp_hsm_enc_sign / "
-                  "tp_oem_get_cust_dice_response x cmd_exception x response {TrustProvisioning with status 0 and 1..4 words, TrustProvisioning with an error "
-                  "status and 0..2 words, Generic with status 0 / error}: the command packet is (0x16, operation, caller's words); values are returned as "
+                  "tp_oem_get_cust_dice_response / wpc_get_id / nxp_get_id / wpc_sign_csr / dsc_hsm_create_session / dsc_hsm_enc_blk / dsc_hsm_enc_sign / "
+                  "el2go_close_device x cmd_exception x response {TrustProvisioning with status 0 and 1..4 words, TrustProvisioning with an error "
+                  "status and 0..2 words, Generic with status 0 / error}: the command packet is (command tag, operation, caller's words); values are returned as "
                   "sent only with status 0; an error status gives None / [] / McuBootCommandError(status) with status_code = the device's, never success "
-                  "and never an undocumented exception; non-trivial = distinct (method, cmd_exception, response)")
+                  "and never an exception with cmd_exception off - an error-status response WITHOUT value words gives exactly None (fix e0d5125); non-trivial = distinct (method, cmd_exception, response)")
 
     class OneShot:
         identifier = "tp-stub"
@@ -1790,7 +1793,7 @@ def tp_query_stream(ck):
         def read(self, length=None):
             return parse_cmd_response(self.payload)
 
-    for name, (opn, nargs, first) in sorted(TP_QUERIES.items()):
+    for name, (ctag, opn, nargs, first) in sorted(TP_QUERIES.items()):
         for ce in (False, True):
             for kind in ("tp_ok", "tp_err", "gen_ok", "gen_err"):
                 for _ in range(ck.budget(3, 10)):
@@ -1800,6 +1803,8 @@ def tp_query_stream(ck):
                     payload = (bytes([0xB6, 0, 0, 1 + nv]) + struct.pack(f"<{1 + nv}I", st, *vals)) if kind.startswith("tp") else \
                         (bytes([0xA0, 0, 0, 2]) + struct.pack("<2I", st, 0x16))
                     args = [rng.choice([0, 1, 0x20001000, rng.getrandbits(32)]) for _ in range(nargs)]
+                    if name == "el2go_close_device":
+                        args[1] = rng.choice([0, 1])  # dry_run
                     case = {"method": name, "cmd_exception": ce, "response": kind, "status": st, "values": vals, "args": args}
                     s.note((name, ce, kind, st, tuple(vals)), cls=kind)
                     itf = OneShot(payload)
@@ -1810,7 +1815,7 @@ def tp_query_stream(ck):
                     except Exception as e:  # noqa: BLE001 - the class of the exception is what is examined
                         exc = e
                     sent = [(p.header.tag, list(p.params)) for p in itf.sent]
-                    s.expect(sent == [(0x16, [opn] + args)], case, "trust provisioning: the command packet is not (TRUST_PROVISIONING, operation, the caller's words)", sent)
+                    s.expect(sent == [(ctag, [opn] + args)], case, "trust provisioning: the command packet is not (command tag, operation, the caller's words)", sent)
                     if st == 0 and kind == "tp_ok":
                         s.expect(exc is None and res == (vals[0] if first else vals) and mb.status_code == 0, case,
                                  "trust provisioning: the words of a SUCCESS response are not returned as the device sent them", repr(exc or res)[:80])
@@ -1820,9 +1825,11 @@ def tp_query_stream(ck):
                         s.expect(isinstance(exc, McuBootCommandError) and exc.error_value == st, case,
                                  "device error status with cmd_exception: McuBootCommandError(status) expected", repr(exc or res)[:80])
                     else:
-                        known = "C10-tp-error-status-indexerror" if (first and kind == "tp_err" and not vals) else None
-                        s.expect(exc is None or isinstance(exc, SPSDKError), case,
-                                 "device error status (cmd_exception off): an undocumented exception escapes instead of a failure result", repr(exc)[:80], None, known)
+                        s.expect(exc is None, case,
+                                 "device error status (cmd_exception off): an exception escapes instead of a failure result", repr(exc)[:80])
+                        if first and not vals:
+                            s.expect(exc is None and res is None, case,
+                                     "device error status without value words (cmd_exception off): None expected", repr(exc or res)[:80], "None")
                         s.expect(mb.status_code == st, case, "status_code is not the status the device sent", mb.status_code, st)
                         s.expect(exc is not None or not is_success(canon_val(res) if not isinstance(res, int) or isinstance(res, bool) else f"ok:n:{res}", mb.status_code),
                                  case, "device error status reported as success", repr(res)[:80])
